@@ -5,7 +5,7 @@ open Lean EupsModel EupsModel.Drv EupsModel.Deps
 
 /-! JSON <-> model values for C13 (also used by the C14 handler). -/
 
-def depOfJson (j : Json) : Except String Dep := do
+def depOfJson (tagged : List ((Str × Str) × Str)) (j : Json) : Except String Dep := do
   let k ← (← j.getObjVal? "k").getStr?
   let (uns, opt) ← match k with
     | "req" => pure (false, false)
@@ -19,17 +19,31 @@ def depOfJson (j : Json) : Except String Dep := do
   let flag (k : String) : Bool := match j.getObjVal? k with
     | .ok (Json.bool b) => b
     | _ => false
-  pure { unsetup := uns, optional := opt, name := ← jstr j "n", ver := ← jstrOpt j "v", noRec := j',
-         external := flag "external" }
+  let tag ← match j.getObjVal? "t" with
+    | .ok (Json.str t) => pure (some (Str.ofString t))
+    | _ => pure none
+  let d : Dep := { unsetup := uns, optional := opt, name := ← jstr j "n", ver := ← jstrOpt j "v", noRec := j',
+                   external := flag "external" }
+  pure (applyLineTag tagged d tag)
 
 def dbOfJson (g : Json) : Except String Db := do
   let ps ← jarr g "products"
   let mut decls : List Decl := []
   let mut cur : List (Str × Str) := []
+  -- (product, tag) ↦ version, for the `-t TAG` lines
+  let mut tagged : List ((Str × Str) × Str) := []
   for p in ps do
     let n ← jstr p "name"
     let v ← jstr p "version"
-    let deps ← (← jarr p "deps").mapM depOfJson
+    let tags ← match p.getObjVal? "tags" with
+      | .ok t => do pure ((← t.getArr?).toList)
+      | .error _ => pure []
+    for t in tags do
+      tagged := tagged ++ [((n, Str.ofString (← t.getStr?)), v)]
+  for p in ps do
+    let n ← jstr p "name"
+    let v ← jstr p "version"
+    let deps ← (← jarr p "deps").mapM (depOfJson tagged)
     let missing := match p.getObjVal? "missing" with
       | .ok (Json.bool b) => b
       | _ => false
@@ -101,13 +115,25 @@ def handle : Handler := fun j => do
       | .notFound => Json.mkObj [("out", "NotFound")]
       | .undetermined => Json.mkObj [("out", "Undetermined")]
     let queries ← (← jarr j "queries").mapM pairOfJson
+    -- `"print":[[query index, showOptional, depth]..]`: what `eups uses` prints for these queries
+    let prints ← match j.getObjVal? "print" with
+      | .ok p => (← p.getArr?).toList.mapM fun x => do
+          match (← x.getArr?).toList with
+          | [qi, so, dp] => pure (← qi.getNat?, ← so.getBool?, ← dp.getNat?)
+          | _ => throw "expected [query index, showOptional, depth]"
+      | .error _ => pure []
     let usesPart : List (String × Json) :=
       if queries.isEmpty then [] else
       match usesInfo db fuel with
       | .outOfFuel => [("uses", "Recursion")]
       | .cycle => [("uses", "Cycle")]
       | .ok sb => [("uses", "ok"),
-                   ("users", Json.arr (queries.map fun (n, v) => Json.arr ((users sb n v).map userToJson).toArray).toArray)]
+                   ("users", Json.arr (queries.map fun (n, v) => Json.arr ((users sb n v).map userToJson).toArray).toArray),
+                   ("printed", Json.arr (prints.map fun (qi, so, dp) =>
+                      match queries[qi]? with
+                      | some (n, v) => Json.arr ((printUses (users sb n v) so dp).map fun (a, b, c, o) =>
+                          Json.arr #[ofStr a, ofStr b, ofStrOpt c, Json.bool o]).toArray
+                      | none => Json.null).toArray)]
     pure (Json.mkObj ([("lists", Json.arr lists.toArray), ("builds", Json.arr builds.toArray)] ++ usesPart))
   | "setup" =>
     -- `{"graph":G,"setup":[[n,v]..],"roots":[[n,v]..],"modes":[..]}`: `eups list -D --setup` listings
